@@ -44,6 +44,8 @@ P = {
          "Every error exit of the attach step terminates exactly the not-yet-attached ids, the success exit none; terminate calls carry ≤ 1000 ids of the current batch; the failure reaches ScaleUp, which then takes no lock.", "§4 C18"),
  "C19": ("other", "linear pre-check entailment + existential-search recognisers + dominance (cloud before Kubernetes) + type-preserving error propagation per frame",
          "Terminate only after both minimum pre-checks and the membership test of that node, the matched instance with decrement; not-in-group is returned unchanged by every frame up to log.Fatal.", "§4 C19"),
+ "C20": ("other", "panic-site census over the RunOnce-reachable call graph (index/slice bounds by linear entailment, optional-value dereferences by path-condition implication or a reviewed table) + stop census + loop-shape census",
+         "Every potentially panicking operation on scan paths is guarded or reviewed; the ways a scan can stop the process are enumerated (three recorded findings); every loop is structurally bounded. Liveness inside client-go / the AWS SDK is not decided.", "§4 C20"),
  "C09": ("proof", "path-condition implication + interprocedural provenance of action arguments",
          "No action site can receive a node that was cordoned in the scan's snapshot, and capacity/counts come from the untainted list only.", "§4 C09"),
  "C10": ("proof", "path-condition implication + loop-shape recogniser + who-may-call",
